@@ -351,5 +351,12 @@ def classify(case, impl, failure):
 TECHNIQUE = ("Coq proofs about a token-level model of the printer, the syntax checker and the scanner "
              "(structural induction over the value list, per-token lemmas) + differential "
              "correspondence against the real functions under ASan/UBSan")
-LEVEL_TEXT = "see notes/C10.md"
-LEVEL_NOTE = "see notes/C10.md"
+LEVEL_TEXT = ("Partial. Proved for all option records and unbounded lists of int32, int64, chars, true/false/nil/inf, "
+              "strings and quoted symbols (every escape, every string split, every line break): returned count = text "
+              "length, checker count = number of values, scanner consumes the whole text and returns the values "
+              "(C10_roundtrip_partial, C10_linebreak_transparent, C10_decimal_roundtrip; witnesses C10_roundtrip_refuted_D7/D8/D10 "
+              "against the pre-fix functions). Plain symbols, colours, MIDI, blobs, floats and doubles are in the model and "
+              "in the correspondence run but not in the theorem; ranges, arrays, time tags and messages are checked on the "
+              "implementation by the round-trip oracle only.")
+LEVEL_NOTE = ("Trusted: Coq kernel, extraction, OCaml driver (incl. its libc oracle for decimal float literals), harness, "
+              "generators. FloatFmt.v (printf %f/%a, hex literal value) is concrete but unproved. See notes/C10.md.")
